@@ -319,7 +319,10 @@ func runC14(r *Run) {
 			r.MustGuard(fn, "getByHash:cache-filled-only-after-read", "nil?iface(trillian/ctfe/storage.IssuanceChainStorage).FindByKey(*)#1", "non", gos, "cache fill")
 			g := gos[0].(*ssa.Go)
 			k, v, why := c14CacheFill(r, g)
-			r.Check("getByHash:cache-fill.args", k != nil && c14D(r, fn, k) == "p2" && glob("iface(trillian/ctfe/storage.IssuanceChainStorage).FindByKey(*)#0", c14D(r, fn, v)), r.Where(g), "cache filled with (hash, chain read) "+why)
+			if k != nil && v != nil {
+				why = "— it is filled with (" + clipStr(c14D(r, fn, k), 110) + ", " + clipStr(c14D(r, fn, v), 110) + ")"
+			}
+			r.Check("getByHash:cache-fill.args", k != nil && c14D(r, fn, k) == "p2" && glob("iface(trillian/ctfe/storage.IssuanceChainStorage).FindByKey(*)#0", c14D(r, fn, v)), r.Where(g), "cache filled with (the hash asked for, the chain read from storage under it) "+why)
 		} else {
 			r.Fail("getByHash:cache-fill", r.FnPos(fn), fmt.Sprintf("%d detached cache fills", len(gos)))
 		}
@@ -559,6 +562,9 @@ func c14ChainStore(r *Run) {
 			}
 			g := gos[0].(*ssa.Go)
 			k, v, why := c14CacheFill(r, g)
+			if k != nil && v != nil {
+				why = "— it is filled with (" + clipStr(c14D(r, fn, k), 110) + ", " + clipStr(c14D(r, fn, v), 110) + ")"
+			}
 			r.Check("add:cache-fill.args", k != nil && c14D(r, fn, k) == "trillian/ctfe.issuanceChainHash(p2)" && c14D(r, fn, v) == "p2", r.Where(g), "cache filled with (hash(chain), chain) "+why)
 		}
 		// cache short-cut only when err == nil && entry != nil
